@@ -21,6 +21,7 @@ source (pull count) and logging elements (call counts) and judged by the non-det
 model mc/ref/c18_model.py (which never looks at lena).
 """
 import contextlib
+import copy
 import json
 import os
 
@@ -163,10 +164,15 @@ _ALL_KINDS = [("source", [CA]), ("source", [F, CA, G]), ("sequence", [F, CA]), (
               ("split_seq", [F, CA]), ("cache_alter", [F, CA, G]), ("source", [CA, ACC2])]
 
 
+_SHARED_KINDS = [("source", [CA]), ("source", [F, CA, G]), ("sequence", [F, CA])]
+
+
 def _flowkinds(placement, elems):
-    """The value kind only matters for the pickle round trip: all kinds for a few shapes."""
+    """The value kind only matters for the pickle round trip: all kinds for a few shapes. "shared" (one
+    context object updated in place by the source) only where no element keeps several values at once
+    (an accumulator or a Split buffer would legitimately see the last state only)."""
     if (placement, elems) in _ALL_KINDS:
-        return ["ints", "ctx", "falsy"]
+        return ["ints", "ctx", "falsy"] + (["shared"] if (placement, elems) in _SHARED_KINDS else [])
     return ["ints"]
 
 
@@ -200,8 +206,9 @@ class Events(object):
 
 
 class SrcIter(object):
-    def __init__(self, values, ev, raise_at):
+    def __init__(self, values, ev, raise_at, shared=False):
         self.values, self.ev, self.raise_at, self.i = values, ev, raise_at, 0
+        self.shared = {} if shared else None
 
     def __iter__(self):
         return self
@@ -216,17 +223,22 @@ class SrcIter(object):
             raise StopIteration
         self.i += 1
         self.ev.pulls += 1
+        if self.shared is not None:
+            # one context object for all values, updated in place
+            self.shared.clear()
+            self.shared.update(copy.deepcopy(self.values[i][1]))
+            return (self.values[i][0], self.shared)
         return self.values[i]
 
 
 class Src(object):
     """Callable source: every call opens a fresh instrumented iterator."""
 
-    def __init__(self, values, ev, raise_at=None):
-        self.values, self.ev, self.raise_at = values, ev, raise_at
+    def __init__(self, values, ev, raise_at=None, shared=False):
+        self.values, self.ev, self.raise_at, self.shared = values, ev, raise_at, shared
 
     def __call__(self):
-        return SrcIter(self.values, self.ev, self.raise_at)
+        return SrcIter(self.values, self.ev, self.raise_at, self.shared)
 
 
 class Wrap(object):
@@ -301,7 +313,9 @@ def execute(shape, run, r, keep, counters=None):
     nc = len(M.cache_positions(elems))
     n_src = 2 * shape["n"] if run["kind"] == "long" else shape["n"]
     values = M.flow_values(shape["flow"], n_src, r)
-    src = Src(values, ev, run["k"] if run["kind"] == "upraise" else None)
+    shared = shape["flow"] == "shared"
+    take = copy.deepcopy if shared else (lambda v: v)      # look at a value when it is received
+    src = Src(values, ev, run["k"] if run["kind"] == "upraise" else None, shared)
     out = []
     outcome = "ok"
     it = None
@@ -352,7 +366,7 @@ def execute(shape, run, r, keep, counters=None):
         if kind == "stop":
             for _ in range(run["k"]):
                 try:
-                    out.append(next(it))
+                    out.append(take(next(it)))
                 except StopIteration:
                     outcome = "short"
                     break
@@ -364,7 +378,7 @@ def execute(shape, run, r, keep, counters=None):
                 keep.append(it)
         else:
             for v in it:
-                out.append(v)
+                out.append(take(v))
     except Exception as e:  # the type is the outcome (R3)
         outcome = "exc:" + type(e).__name__
     it = None
